@@ -459,6 +459,7 @@ def check(run, replay=None):
                     ("fork." if t["cfg"]["forked"] else "pipe.") + t["cfg"]["kind"], t.get("origin"), hw + 1,
                     cmd_str(t["wins"][hw]["cmd"]) if hw < len(t["wins"]) else "-", model, json.dumps(t["wins"][hw]["done"])[:200] if hw < len(t["wins"]) else "", json.dumps(t["wins"][hw]["q"]) if hw < len(t["wins"]) else ""))
             log("phase: TRACE-I %s: %d traces, %d accepted, %d rejected" % (model, len(sample), acc, len(rej)))
+        stress_pass(run, pid, binp, scheds, d, random.Random(rng.random()), th)
         if pid in ("C09", "C10", "C12", "C13"):
             # the stages with more than one library goroutine touching shared state: the same schedules under the race detector
             race_pass(run, scheds, d, rng, th)
@@ -878,7 +879,7 @@ def special_scheds(pid, th, rng):
     return out
 
 
-def report(run, pid, scheds, traces, viols):
+def report(run, pid, scheds, traces, viols, keep_count=False):
     mine = set(PREDS[pid])
     per_trace = collections.OrderedDict()
     timed = {"EmitPaced", "EmitKeepUp", "ThrottlePaced", "ThrottleWindow"}     # not judged on the real clock (free runs): jitter
@@ -899,11 +900,82 @@ def report(run, pid, scheds, traces, viols):
                                                [cmd_str(x["cmd"]) for x in t["wins"][1:w]] if t["wins"] else [cmd_str(x) for x in t.get("sched", {}).get("cmds", [])])
         cmds = [x["cmd"] for x in t["wins"][1:] if not x["skipped"]] if t["wins"] else t.get("sched", {}).get("cmds", [])
         if t.get("free"):
-            what = "(outside the bubble, real clock, consumers keep receiving, nothing observable for 30 s) " + what
+            what = "(outside the bubble, real scheduler and clock, consumers keep receiving; at rest = outputs closed or nothing observable for a long time) " + what
             run.violation(dict(sig, free=t["free"]), what, {"sched": {"cfg": c, "cmds": [], "epilogue": "none", "origin": "replay"}, "free": t["free"], "preds": ps, "window": w})
             continue
         run.violation(sig, what, {"sched": {"cfg": c, "cmds": cmds, "epilogue": "none", "origin": "replay"}, "preds": ps, "window": w})
-    run.notes["traces_with_failing_predicate"] = len(per_trace)
+    if not keep_count:
+        run.notes["traces_with_failing_predicate"] = len(per_trace)
+
+
+def stress_cfgs(scheds, rng, n):
+    """One configuration per (stage, package, mode, element type, capacity class, StdErr) met in this run's schedules, with
+    an input long enough for producer, stage and consumers to really overlap on the real scheduler."""
+    seen = collections.OrderedDict()
+    for s in scheds:
+        c = s["cfg"]
+        if c["kind"] in ("Pipeline", "Seq", "ToSeq"):
+            continue
+        seen.setdefault((c["kind"], c["forked"], c["par"] if c["forked"] else 0, c["mode"], c["elem"], min(c["cap"], 2), c["stderr"]), c)
+    cfgs = list(seen.values())
+    rng.shuffle(cfgs)
+    out = []
+    for c in cfgs[:n]:
+        c = dict(c, twin="", gate=False, stages=[])
+        L = rng.choice([12, 33, 80])
+        if c["kind"] == "Fold":
+            if c["forked"] or c["monoid"] not in ("digits9",):
+                c["monoid"], vals = ("sum" if c["monoid"] in ("digits9", "prod") else c["monoid"]), [1 + (i % 7) for i in range(L)]
+            else:
+                vals = [1 + (i % 9) for i in range(8)]          # the order-sensitive fold: 9 followed by eight digits still fits TLC's integers
+            c["inputs"] = [vals]
+        elif c["kind"] == "Join":
+            k = max(1, len(c["inputs"]))
+            c["inputs"] = [[100 * (i + 1) + j for j in range(1, min(L, 60) // k + 2)] for i in range(k)] if c["inputs"] else []
+            c["dup"] = []
+        elif c["kind"] in ("Emit", "Unfold"):
+            pass
+        else:
+            c["inputs"] = [list(range(1, L + 1))]
+            if c["mode"] != "pure":
+                c["fail"] = sorted(rng.sample(range(1, L + 1), max(1, L // 5)))
+            c["pred"] = [x for x in range(1, L + 1) if rng.random() < 0.6] if c["kind"] != "TakeWhile" else list(range(1, rng.randint(1, L) + 1)) + [L]
+            if c["kind"] == "Take":
+                c["n"] = rng.choice([0, 1, L // 2, L, L + 2])
+            if c["kind"] == "Throttling":
+                c["ops"], c["interval"] = rng.choice([1, 2, 5]), 1
+        out.append(C(**c))
+    return out
+
+
+def stress_pass(run, pid, binp, scheds, d, rng, th):
+    """Outside the bubble: the real scheduler with all processors, the real clock, producers that send as fast as the stage
+    takes and consumers that keep receiving - environment moves are not confined to the library's points of rest (what the
+    schedules of the controller are, bursts apart).  Judged by the same TRACE-P predicates except the timed ones; a window
+    counts as 'at rest' once every output is closed and the goroutines are gone, or after `still` seconds of silence."""
+    from concurrent.futures import ThreadPoolExecutor
+    cfgs = stress_cfgs(scheds, rng, 160 if th else 40)
+    jobs = []
+    for c in cfgs:
+        gen = c["kind"] in ("Emit", "Unfold")
+        for rep in range(4 if th else 2):
+            for variant in (("cancel",) if gen else ("drain", "cancel", "closecancel")):
+                if variant == "closecancel" and c["kind"] == "Join" and not c["inputs"]:
+                    continue
+                jobs.append((c, variant))
+    def one(j):
+        i, (c, variant) = j
+        return pipe_run.run_free(binp, {"cfg": c, "cmds": [], "epilogue": "none", "origin": "stress"}, variant, d, tag="st%d" % i, still=20, quota=250)
+    with ThreadPoolExecutor(6) as ex:
+        ft = list(ex.map(one, enumerate(jobs)))
+    fv, fres = pipe_run.judge(ft, d, tag="jst")
+    for r in fres:
+        run.add_mc("PipeTraceP", r, {"traces": "stress runs (real scheduler)"})
+    run.traces += len(ft)
+    n0 = len(run.violations)
+    report(run, pid, None, ft, fv, keep_count=True)
+    run.notes["stress_runs_outside_the_bubble"] = {"configurations": len(cfgs), "executions": len(ft), "with_failing_predicate": len(run.violations) - n0}
+    log("phase: stress: %d executions of %d configurations on the real scheduler, %d with a failing predicate" % (len(ft), len(cfgs), len(run.violations) - n0))
 
 
 def race_pass(run, scheds, d, rng, th):
